@@ -605,10 +605,28 @@ func cmdHdrWindow(o *Out, line string, f []string) {
 	mn, mx, s := atoi64(sec[1][0]), atoi64(sec[1][1]), int(atoi64(sec[1][2]))
 	w := hdrhist.NewWindowed(n, mn, mx, s)
 	gens := [][]int64{{}}
+	union := func() *hdrhist.Histogram {
+		u := hdrhist.New(mn, mx, s)
+		lo := len(gens) - n
+		if lo < 0 {
+			lo = 0
+		}
+		for _, g := range gens[lo:] {
+			for _, v := range g {
+				_ = u.RecordValue(v)
+			}
+		}
+		return u
+	}
 	for _, op := range sec[2] {
 		if op == "rot" {
 			w.Rotate()
 			gens = append(gens, []int64{})
+		} else if op == "mrg" {
+			// an intermediate Merge: reading, it changes nothing, and it is the union of the last n windows NOW
+			if m := w.Merge(); !m.Equals(union()) {
+				o.violation(line, "an intermediate Merge of the windowed histogram differs from the union of its last n windows at that moment", nil)
+			}
 		} else {
 			v := atoi64(op[1:])
 			if w.Current.RecordValue(v) == nil {
@@ -811,5 +829,36 @@ func hdrStat(o *Out, rng *rand.Rand, thorough bool, _ []string) {
 			}
 		}
 		run(o, fmt.Sprintf("hdr-window %d | 1 %d %d | %s", n, mx, s, strings.Join(ops, " ")))
+	}
+	// steady-rate schedules: the same number of values in every window, one Merge per rotation, well past the ring size
+	for n := 1; n <= 4; n++ {
+		for c := 1; c <= 3; c++ {
+			var ops []string
+			v := int64(1)
+			for round := 0; round < n+4; round++ {
+				for k := 0; k < c; k++ {
+					ops = append(ops, fmt.Sprintf("r%d", v))
+					v += 7
+				}
+				ops = append(ops, "mrg", "rot")
+			}
+			ops = append(ops, "mrg")
+			run(o, fmt.Sprintf("hdr-window %d | 1 4096 2 | %s", n, strings.Join(ops, " ")))
+		}
+	}
+	for i := 0; i < nw/3; i++ {
+		n := 1 + rng.Intn(4)
+		var ops []string
+		for k := 0; k < 6+rng.Intn(14); k++ {
+			switch rng.Intn(4) {
+			case 0:
+				ops = append(ops, "rot")
+			case 1:
+				ops = append(ops, "mrg")
+			default:
+				ops = append(ops, fmt.Sprintf("r%d", rng.Int63n(1026)))
+			}
+		}
+		run(o, fmt.Sprintf("hdr-window %d | 1 1024 %d | %s", n, 1+rng.Intn(3), strings.Join(ops, " ")))
 	}
 }
